@@ -61,7 +61,9 @@ impl Sink<Response<String>> for T {
     fn start_send(self: Pin<&mut Self>, r: Response<String>) -> Result<(), Self::Error> {
         let mut s = self.0.lock().unwrap();
         if !s.granted {
-            s.violations.push("C14: start_send without a readiness report for that item".into());
+            // a sink that was not asked for room has none: the item is lost (as with a full slot)
+            s.violations.push(format!("C14: start_send (response for id {}) without a readiness report for that item", r.request_id));
+            return Ok(());
         }
         s.granted = false;
         let m = r.message.map_err(|e| e.kind);
@@ -209,9 +211,10 @@ fn answerable_model(script: &[Msg], id: u64) -> usize {
     n
 }
 
-fn check(s: &Shared, script: &[Msg], limit: Option<usize>, ended: bool, half_close: bool, in_flight_after: usize, handlers_pending_throughout: bool, model_applies: bool, desc: &str) -> Result<(), String> {
+fn check(s: &Shared, script: &[Msg], limit: Option<usize>, ended: bool, half_close: bool, in_flight_after: usize, handlers_pending_throughout: bool, model_applies: bool, desc: &str) -> Vec<String> {
+    let mut errs: Vec<String> = vec![];
     if let Some(v) = s.violations.first() {
-        return Err(format!("{v}; {desc}"));
+        errs.push(format!("{v}; {desc}"));
     }
     let n_req = |id: u64| script.iter().filter(|m| **m == Msg::Req(id)).count();
     for id in [7u64, 8] {
@@ -219,54 +222,75 @@ fn check(s: &Shared, script: &[Msg], limit: Option<usize>, ended: bool, half_clo
         let all_responses = s.wire.iter().filter(|(i, _)| *i == id).count();
         let invocations = s.started.iter().filter(|(i, _)| *i == id).count();
         if all_responses > n_req(id) {
-            return Err(format!("C08: {all_responses} responses bearing id {id} for {} requests read; wire {:?}; {desc}", n_req(id), s.wire));
+            errs.push(format!("C08: {all_responses} responses bearing id {id} for {} requests read; wire {:?}; {desc}", n_req(id), s.wire));
         }
         if handlers_pending_throughout && limit.is_none() && invocations > accepted_model(script, id) {
-            return Err(format!("C08: {invocations} handler invocations for id {id}, but a request reusing an id that is still in flight must be ignored (at most {} can be accepted); {desc}", accepted_model(script, id)));
+            errs.push(format!("C08: {invocations} handler invocations for id {id}, but a request reusing an id that is still in flight must be ignored (at most {} can be accepted); {desc}", accepted_model(script, id)));
         }
         if limit.is_none() && model_applies && all_responses > answerable_model(script, id) {
-            return Err(format!("C04/C08: {all_responses} response(s) bearing id {id} although at most {} request(s) for it were accepted and not cancelled; wire {:?}; {desc}", answerable_model(script, id), s.wire));
+            errs.push(format!("C04/C08: {all_responses} response(s) bearing id {id} although at most {} request(s) for it were accepted and not cancelled; wire {:?}; {desc}", answerable_model(script, id), s.wire));
         }
         if invocations > n_req(id) {
-            return Err(format!("C08: {invocations} handler invocations for id {id} but only {} requests; {desc}", n_req(id)));
+            errs.push(format!("C08: {invocations} handler invocations for id {id} but only {} requests; {desc}", n_req(id)));
         }
         if ok_responses > invocations {
-            return Err(format!("C08: a successful response for id {id} without a handler having run; wire {:?}; {desc}", s.wire));
+            errs.push(format!("C08: a successful response for id {id} without a handler having run; wire {:?}; {desc}", s.wire));
         }
         if limit.is_none() && script.iter().filter(|m| matches!(m, Msg::Req(_))).count() > 0 {
             // without a limit every response is a handler's answer
             if all_responses != ok_responses {
-                return Err(format!("C12: an error response although no limit is configured; wire {:?}; {desc}", s.wire));
+                errs.push(format!("C12: an error response although no limit is configured; wire {:?}; {desc}", s.wire));
             }
         }
     }
     for (id, m) in &s.wire {
         if n_req(*id) == 0 {
-            return Err(format!("C08: response for id {id}, which was never requested on this channel; {desc}"));
+            errs.push(format!("C08: response for id {id}, which was never requested on this channel; {desc}"));
         }
         if let Err(k) = m {
             if *k != std::io::ErrorKind::WouldBlock {
-                return Err(format!("C12: throttle reply with kind {k:?}; {desc}"));
+                errs.push(format!("C12: throttle reply with kind {k:?}; {desc}"));
             }
         }
     }
     if let Some(l) = limit {
         if s.max_running > l {
-            return Err(format!("C12: {} handlers ran concurrently with limit {l}; {desc}", s.max_running));
+            errs.push(format!("C12: {} handlers ran concurrently with limit {l}; {desc}", s.max_running));
         }
     }
     if half_close {
         if !ended {
-            return Err(format!("C10: inbound ended, every handler finished or was aborted, but the request stream did not end; wire {:?}; {desc}", s.wire));
+            errs.push(format!("C10: inbound ended, every handler finished or was aborted, but the request stream did not end; wire {:?}; {desc}", s.wire));
         }
         if s.flushed != s.wire.len() {
-            return Err(format!("C10/C14: the stream ended with {} response(s) written but not flushed; {desc}", s.wire.len() - s.flushed));
+            errs.push(format!("C10/C14: the stream ended with {} response(s) written but not flushed; {desc}", s.wire.len() - s.flushed));
         }
         if in_flight_after != 0 {
-            return Err(format!("C11: {in_flight_after} requests still reported in flight after everything ended; {desc}"));
+            errs.push(format!("C11: {in_flight_after} requests still reported in flight after everything ended; {desc}"));
         }
     }
-    Ok(())
+    if let (Some(_), true, true) = (limit, half_close, ended) {
+        // everything has been processed: a request read once and never cancelled was either handed to the
+        // application or refused with exactly one throttle reply -- never both, never neither
+        for id in [7u64, 8] {
+            if n_req(id) == 1 && !script.contains(&Msg::Cancel(id)) {
+                let invocations = s.started.iter().filter(|(i, _)| *i == id).count();
+                let refusals = s.wire.iter().filter(|(i, m)| *i == id && m.is_err()).count();
+                if invocations + refusals != 1 {
+                    errs.push(format!("C12: request {id} was read once and never cancelled, and ended with {invocations} handler invocation(s) and {refusals} throttle reply(ies) on the wire; wire {:?}; {desc}", s.wire));
+                }
+            }
+        }
+    }
+    if limit == Some(1) && handlers_pending_throughout && script.first() == Some(&Msg::Req(7)) && !script.iter().any(|m| matches!(m, Msg::Cancel(_))) {
+        // request 7 holds the only slot until every message has been read: each request 8 is refused, with one reply each
+        let invocations = s.started.iter().filter(|(i, _)| *i == 8).count();
+        let refusals = s.wire.iter().filter(|(i, m)| *i == 8 && m.is_err()).count();
+        if invocations != 0 || refusals != n_req(8) {
+            errs.push(format!("C12: limit 1 and request 7 in flight throughout: the {} request(s) with id 8 got {invocations} handler invocation(s) and {refusals} throttle reply(ies); wire {:?}; {desc}", n_req(8), s.wire));
+        }
+    }
+    errs
 }
 
 fn scripts(max_len: usize) -> Vec<Vec<Msg>> {
@@ -288,7 +312,7 @@ fn scripts(max_len: usize) -> Vec<Vec<Msg>> {
     out
 }
 
-fn one(script: &[Msg], polls: u32, release_rev: bool, release_before_last: bool, gated: bool, limit: Option<usize>, half_close: bool) -> Result<(), String> {
+fn one(script: &[Msg], polls: u32, release_rev: bool, release_before_last: bool, gated: bool, limit: Option<usize>, half_close: bool) -> Result<(), Vec<String>> {
     let desc = format!("script {script:?}, polls {polls:#b}, release_rev {release_rev}, release_before_last {release_before_last}, gated {gated}, limit {limit:?}, half_close {half_close}");
     let shared = Arc::new(Mutex::new(Shared { gate_open: true, ..Default::default() }));
     let base = BaseChannel::with_defaults(T(shared.clone()));
@@ -341,12 +365,13 @@ fn one(script: &[Msg], polls: u32, release_rev: bool, release_before_last: bool,
             let s = shared.lock().unwrap();
             let in_flight: usize = $in_flight(&run);
             if run.errored {
-                return Err(format!("C09: the request stream reported an error although the transport never failed; {desc}"));
+                return Err(vec![format!("C09: the request stream reported an error although the transport never failed; {desc}")]);
             }
             // the response-count model is exact when handlers stay pending to the end, or when they finish just before the
             // last message and every earlier message had already been processed
             let all_earlier_polled = (0..script.len().saturating_sub(1)).all(|i| polls & (1 << i) != 0);
-            check(&s, script, limit, run.ended, half_close, in_flight, !release_before_last, !release_before_last || all_earlier_polled, &desc)
+            let errs = check(&s, script, limit, run.ended, half_close, in_flight, !release_before_last, !release_before_last || all_earlier_polled, &desc);
+            if errs.is_empty() { Ok(()) } else { Err(errs) }
         }};
     }
     match limit {
@@ -360,6 +385,7 @@ fn server_wire_scripts() {
     let rt = tokio::runtime::Builder::new_current_thread().enable_time().start_paused(true).build().unwrap();
     let _g = rt.enter();
     let mut evaluations = 0usize;
+    let mut failures: Vec<(String, String)> = vec![];
     for script in scripts(4) {
         let n = script.len();
         for polls in 0..(1u32 << n) {
@@ -369,8 +395,14 @@ fn server_wire_scripts() {
                         for limit in [None, Some(1usize)] {
                             for half_close in [false, true] {
                                 evaluations += 1;
-                                if let Err(e) = one(&script, polls, release_rev, release_before_last, gated, limit, half_close) {
-                                    panic!("{e}");
+                                if let Err(errs) = one(&script, polls, release_rev, release_before_last, gated, limit, half_close) {
+                                    // keep the first failure of every oracle (by its property prefix), over the whole search, for attribution
+                                    for e in errs {
+                                        let tag = e.split(':').next().unwrap_or("").to_string();
+                                        if !failures.iter().any(|(t, _): &(String, String)| *t == tag) {
+                                            failures.push((tag, e));
+                                        }
+                                    }
                                 }
                             }
                         }
@@ -379,5 +411,9 @@ fn server_wire_scripts() {
             }
         }
     }
+    for (_, e) in &failures {
+        println!("VERIF-FAIL {e}");
+    }
     println!("VERIF-BOUNDED server_wire evaluations={evaluations} bound=peer scripts of <= 4 messages over {{Req 7, Req 8, Cancel 7, Cancel 8}} x a poll or not after each x handler release order x early release x sink gated|not x limit none|1 x half-close|not");
+    assert!(failures.is_empty(), "{}", failures[0].1);
 }
